@@ -456,6 +456,16 @@ theorem tokens_of_sugared_source (e : Sx) (h : SrcOK e) (u : Str) (hu : Sugar (s
   rw [hp]
   exact tokens_of_preprocessed_source e h
 
+/-- **T15'' (a sugared statement `lhs=…`)**: with a left-hand side, `Track.operate` on the sugared string does what it does on
+the postfix tokens `lhs, postfix(desugar e), =` — so T3b–T3d and T6' apply to `c=-a*(-b+a)--b`. -/
+theorem operate_source_sugar_statement (tr : Tr α) (lhs : Str) (e : Sx) (hl : NameOK lhs) (hg : GoodTok lhs) (h : SrcOK e)
+    (hq : NoQuote (desugar e)) (u : Str) (hu : Sugar (lhs ++ '=' :: src e) u) :
+    operate tr u = operateTokens tr (lhs :: (Expr.post (desugar e) ++ [['=']])) true := by
+  have e1 : (lhs ++ ['=']) ++ src e = lhs ++ '=' :: src e := by simp
+  have := operate_sugar tr (lhs ++ ['=']) (preOK_lhs hl) e h u (by rw [e1]; exact hu)
+  rw [this, e1]
+  exact operate_source_tokens tr lhs e hl hg h hq
+
 /-! ## non-vacuity -/
 
 /-- the laws are those of exact arithmetic: rationals with a NaN element satisfy them -/
@@ -696,5 +706,8 @@ example : (operate trEx "-a*(-b+a)--b".toList).1.toOption = some (some [3, -6, 9
 example : ((preprocess "-a*(-b+a)--b".toList).bind (fun p => makeRPN p.1)).toOption
     = some (outputName :: (Expr.post (desugar gEx) ++ [['=']])) := by
   rw [tokens_of_sugared_source gEx gEx_ok _ (by rw [gEx_src]; exact gEx_sugar)]; rfl
+
+/-- T15'': `c=-a*(-b+a)--b` stores `[3, -6, 9]` under the new name `c` -/
+example : (operate trEx "c=-a*(-b+a)--b".toList).2.feats = trEx.feats ++ [(['c'], [3, -6, 9])] := by decide +kernel
 
 end TV.C02
